@@ -4,7 +4,7 @@
    pot_fill, treat_fill, geomcomp, comp_names) are those of C09/Model.v that
    the correspondence ties execute against the Python code. *)
 From Coq Require Import List NArith ZArith QArith Qpower Bool String Ascii.
-From T4V Require Import Base.Str C09.Model C09.Spec C09.ProofsNorm C09.ProofsIdem C09.ProofsValue C09.ProofsFill C09.ProofsComp.
+From T4V Require Import Base.Str C09.Model C09.Spec C09.ProofsNorm C09.ProofsIdem C09.ProofsValue C09.ProofsLike C09.ProofsFill C09.ProofsComp C09.ProofsWrite.
 Import ListNotations.
 Open Scope string_scope.
 
@@ -104,6 +104,36 @@ Example C09_value_nontrivial :
   (number_value (mkNumber "" "" (Some "0500") None) == (5 # 100))%Q.
 Proof. split; vm_compute; reflexivity. Qed.
 
+(* float-free and exact: two spellings of well-formed numbers get the same
+   normalised string IFF they spell the same canonical number (same sign
+   string, integer digits and exponent string, same fraction up to its final
+   zeros — canon_number); hence numerically different densities never share a
+   name, and equal names mean equal values *)
+Example C09_canon_number_unfold : forall n,
+  canon_number n =
+  match n_exp n, n_frac n with
+  | None, Some f => mkNumber (n_sign n) (n_int n) (Some (canon_frac f)) (n_exp n)
+  | Some _, Some f => mkNumber (n_sign n) (n_int n) (Some (keep_frac (n_int n) f)) (n_exp n)
+  | _, None => n
+  end.
+Proof. intros. reflexivity. Qed.
+
+Theorem C09_same_name_iff :
+  forall (n1 : number) (p1 : nat) (m1 : marker) (n2 : number) (p2 : nat) (m2 : marker),
+  wf_number n1 = true -> marker_ok n1 m1 = true -> wf_number n2 = true -> marker_ok n2 m2 = true ->
+  (normalize_float (spell n1 p1 m1) = normalize_float (spell n2 p2 m2) <->
+   canon_number n1 = canon_number n2).
+Proof. exact same_name_iff. Qed.
+Print Assumptions C09_same_name_iff.
+
+Theorem C09_different_values_different_names :
+  forall (n1 : number) (p1 : nat) (m1 : marker) (n2 : number) (p2 : nat) (m2 : marker),
+  wf_number n1 = true -> marker_ok n1 m1 = true -> wf_number n2 = true -> marker_ok n2 m2 = true ->
+  ~ (number_value n1 == number_value n2)%Q ->
+  normalize_float (spell n1 p1 m1) <> normalize_float (spell n2 p2 m2).
+Proof. exact different_values_different_names. Qed.
+Print Assumptions C09_different_values_different_names.
+
 (* for ALL strings (no assumption on the token): what normalize_float returns
    is a fixed point; hence whatever density parse_material stores satisfies the
    hypothesis [dens_normal] of C09_compositions_exact below *)
@@ -156,6 +186,43 @@ Example C09_like_but_void_nontrivial :
   cell_material ["1"; "-1.0"] (Some "0") None = Ok ("0", None) /\
   geomcomp_lines [(2%Z, mkVol false [])] [(2%Z, mkCell "0" None 1 0 None [])] = Ok [("m0", 1%N, [2%Z])].
 Proof. vm_compute. split; reflexivity. Qed.
+
+(* LIKE chains (parse_one_cell): [chain_of] is the path of option lists from the
+   base card to the cell; the LIKE loop hands parse_one_cell_worker the base
+   card's material tokens and the LAST MAT= and the LAST RHO= met along that
+   path — an override written on an intermediate card reaches every later copy
+   unless a later card overrides it again *)
+Theorem C09_like_chain_last_wins :
+  forall (fuel : nat) (cards : idict card) (c : card) (toks : list string) (ch : list (list opt)),
+  chain_of fuel cards c = Ok (toks, ch) ->
+  card_material fuel cards c =
+    cell_material toks (last_some (map (fun o => kw_mat o None) ch))
+                       (last_some (map (fun o => kw_rho o None) ch)).
+Proof. exact like_chain_last_wins. Qed.
+Print Assumptions C09_like_chain_last_wins.
+
+(* one hop, whatever is behind the model cell: own entries win, the rest is
+   inherited from what the model cell resolved to *)
+Theorem C09_like_inherits :
+  forall (fuel : nat) (cards : idict card) (n : Z) (o : list opt) (c' : card) (toks : list string) (o' : list opt),
+  ilookup n cards = Some c' -> like_resolve fuel cards c' = Ok (toks, o') ->
+  card_material (S fuel) cards (Like n o) =
+    cell_material toks
+      (match kw_mat o None with Some x => Some x | None => kw_mat o' None end)
+      (match kw_rho o None with Some x => Some x | None => kw_rho o' None end).
+Proof. exact like_inherits. Qed.
+Print Assumptions C09_like_inherits.
+
+(* the regression seeded by the lead, on the model: cell 4 LIKE 3 (no own
+   MAT/RHO), cell 3 LIKE 2 BUT MAT=2 RHO=-7.8: cell 4 keeps material 2 *)
+Example C09_like_chain_nontrivial :
+  let cards := [(2, Plain ["1"; "-1.0"] [OOther]); (3, Like 2 [OMat "2"; ORho "-7.80"; OOther]);
+                (4, Like 3 [OOther]); (5, Like 4 [ORho "-7.9"])]%Z in
+  card_material 5 cards (Like 3 [OOther]) = Ok ("2", Some "-7.8") /\
+  card_material 5 cards (Like 4 [ORho "-7.9"]) = Ok ("2", Some "-7.9") /\
+  chain_of 5 cards (Like 4 [ORho "-7.9"]) =
+    Ok (["1"; "-1.0"], [[OOther]; [OMat "2"; ORho "-7.80"; OOther]; [OOther]; [ORho "-7.9"]]).
+Proof. vm_compute. repeat split. Qed.
 
 (* ------------------------------------------------------------------------ *)
 (* provenance: the filler, not the container                                 *)
@@ -422,6 +489,48 @@ Theorem C09_geomcomp_name_has_composition :
   In ("m" ++ material_name key c) l.
 Proof. exact geomcomp_name_has_composition. Qed.
 Print Assumptions C09_geomcomp_name_has_composition.
+
+(* what writeT4Composition writes (write_compositions, tied byte for byte): for
+   every material card, in card order, one block per stored density that a live
+   level-0 cell of that material asks for ([dss]: per card the densities, each
+   once); the count line is the number of these (card, density) pairs plus one
+   for m0, and equals the number of blocks written plus one; then the m0 block *)
+Example C09_blocks_of_unfold : forall mc r ds t pw,
+  blocks_of (mc :: r) (ds :: t) pw = (map (block_text mc pw) ds ++ blocks_of r t pw)%list.
+Proof. intros. reflexivity. Qed.
+
+Theorem C09_write_compositions :
+  forall (mcs : list mcard) (cells : dict cell) (pw : list (string * list (string * string))) (text : string),
+  write_compositions mcs cells pw = Ok text -> dens_normal cells ->
+  exists dss,
+    Forall2 (fun mc ds => NoDup ds /\ forall d, In d ds <-> asks (k_key mc) cells d) mcs dss /\
+    text = nl ++ "COMPOSITION" ++ nl ++ dec (N.of_nat (List.length (List.concat dss)) + 1) ++ nl ++
+           concat_str (blocks_of mcs dss pw) ++
+           "POINT_WISE 300 m0 1" ++ nl ++ "  HE4 1E-30" ++ nl ++ nl ++ "END_COMPOSITION" ++ nl /\
+    List.length (blocks_of mcs dss pw) = List.length (List.concat dss).
+Proof. exact write_compositions_spec. Qed.
+Print Assumptions C09_write_compositions.
+
+(* every block starts with its type, the temperature and the name m<key>_<density>
+   — the name GEOMCOMP uses for the cells of that material and density
+   (C09_geomcomp_name_has_composition) *)
+Theorem C09_block_head : forall (mc : mcard) (pw : list (string * list (string * string))) (nd : string),
+  exists typ rest, (typ = "DENSITY" \/ typ = "POINT_WISE") /\
+    block_text mc pw nd = typ ++ " 300 m" ++ dec_Z (k_key mc) ++ "_" ++ nd ++ " " ++ rest.
+Proof. exact block_text_head. Qed.
+Print Assumptions C09_block_head.
+
+Example C09_write_nontrivial :
+  let cells := [(1, mkCell "1" (Some "-1.0") 1 0 None []); (2, mkCell "01" (Some "-2.5") 1 0 None []);
+                (3, mkCell "2" (Some "-7.8") 1 0 None []); (4, mkCell "1" (Some "-9.9") 1 2 None [])]%Z in
+  let mcs := [mkMcard 1 true [("H1", "2"); ("O16", "1")]; mkMcard 2 true [("FE56", "1")]] in
+  write_compositions mcs cells [] =
+  Ok (nl ++ "COMPOSITION" ++ nl ++ "4" ++ nl ++
+      "DENSITY 300 m1_-1.0 1.0 NB_ATOM 2" ++ nl ++ "  H1 2" ++ nl ++ "  O16 1" ++ nl ++
+      "DENSITY 300 m1_-2.5 2.5 NB_ATOM 2" ++ nl ++ "  H1 2" ++ nl ++ "  O16 1" ++ nl ++
+      "DENSITY 300 m2_-7.8 7.8 NB_ATOM 1" ++ nl ++ "  FE56 1" ++ nl ++
+      "POINT_WISE 300 m0 1" ++ nl ++ "  HE4 1E-30" ++ nl ++ nl ++ "END_COMPOSITION" ++ nl).
+Proof. vm_compute. reflexivity. Qed.
 
 Example C09_compositions_nontrivial :
   let cells := [(1, mkCell "1" (Some "-1.0") 1 0 None []); (2, mkCell "01" (Some "-2.5") 1 0 None []);
